@@ -111,7 +111,7 @@ def refine(bi, t, depth=0):
         base = refine(bi, t[1][1], depth + 1)
         v = t[1][2]
         k = t[2]
-        if base[0] == "phi":
+        if base[0] == "phi" and base[1] not in bi.T._mut_borrowed():
             defs = []
             for d in _live_defs(bi, base[1]):
                 defs.append(bi.T._of_def(base[1], d, 1))
@@ -125,13 +125,19 @@ def refine(bi, t, depth=0):
         return ("field", ("variant", base, v), k)
     if t[0] == "field":
         base = refine(bi, t[1], depth + 1)
-        if base[0] == "agg" and base[1] == "tuple" and isinstance(t[2], int) and t[2] < len(base[2]):
-            return refine(bi, base[2][t[2]], depth + 1)
-        if base[0] == "agg" and isinstance(base[1], tuple) and len(base[2]) == 1 and t[2] == 0 and base[1][0] == base[1][1]:
-            return refine(bi, base[2][0], depth + 1)      # newtype struct: Key(i).0 = i
+        # components of an aggregate that was just read back from a carrier definition (a value captured when it was
+        # built); an aggregate term the value engine left unprojected belongs to a local that is written through a
+        # reference (`mem::swap(&mut out, ..)`) and must stay as it is
+        if base != t[1]:
+            if base[0] == "agg" and base[1] == "tuple" and isinstance(t[2], int) and t[2] < len(base[2]):
+                return refine(bi, base[2][t[2]], depth + 1)
+            if base[0] == "agg" and isinstance(base[1], tuple) and len(base[2]) == 1 and t[2] == 0 and base[1][0] == base[1][1]:
+                return refine(bi, base[2][0], depth + 1)      # newtype struct: Key(i).0 = i
         return ("field", base, t[2]) + tuple(t[3:])
     if t[0] == "agg":
         return ("agg", t[1], tuple(refine(bi, x, depth + 1) for x in t[2])) + tuple(t[3:])
+    if t[0] == "call" and len(t) >= 3:
+        return ("call", t[1], tuple(refine(bi, x, depth + 1) for x in t[2])) + tuple(t[3:])
     return t
 
 
@@ -146,7 +152,7 @@ def refine_alts(bi, t, depth=0):
         v, k = t[1][2], t[2]
         outs = []
         for base, anchor in refine_alts(bi, t[1][1], depth + 1):
-            if base[0] == "phi":
+            if base[0] == "phi" and base[1] not in bi.T._mut_borrowed():
                 defs = [(d[0], bi.T._of_def(base[1], d, 1)) for d in _live_defs(bi, base[1])]
                 aggs = [(b_, d) for b_, d in defs if d[0] == "agg" and isinstance(d[1], tuple) and len(d[1]) == 2]
                 hit = [(b_, d) for b_, d in aggs if d[1][1] == v and isinstance(k, int) and k < len(d[2])]
@@ -164,6 +170,9 @@ def refine_alts(bi, t, depth=0):
     if t[0] == "field":
         outs = []
         for base, anchor in refine_alts(bi, t[1], depth + 1):
+            if base == t[1]:
+                outs.append((t, anchor))
+                continue
             if base[0] == "agg" and base[1] == "tuple" and isinstance(t[2], int) and t[2] < len(base[2]):
                 for x, a2 in refine_alts(bi, base[2][t[2]], depth + 1):
                     outs.append((x, a2 if a2 is not None else anchor))
@@ -182,6 +191,9 @@ def refine_alts(bi, t, depth=0):
                     nxt.append((pre + (fx,), a1 if a1 is not None else a2))
             combos = nxt[:16]
         return [(("agg", t[1], pre) + tuple(t[3:]), a) for pre, a in combos]
+    if t[0] == "call" and len(t) >= 3:
+        # arguments read back from a carrier (`B::from_residual(residual)` with `residual` broken out of a loop)
+        return [(("call", t[1], tuple(refine(bi, x, depth + 1) for x in t[2])) + tuple(t[3:]), None)]
     return [(t, None)]
 
 
